@@ -642,3 +642,46 @@ def add_twins(model, twins, base_fid=900):
         m["recipes"][0]["body"]["depends"].append({"name": "tw%d" % i, "use": ["result"], "forward": False, "env": {},
                                                    "if": None, "checkoutDep": False, "tools": None})
     return m
+
+
+def add_toolchains(model, variant, base_fid=800):
+    """returns a copy of the model with the most typical Bob layout appended: the same sub-tree built under two tool
+    chains.  Recipes tcA / tcB provide different variants of one tool, tw consumes it, tm depends on tw without using
+    the tool itself, ts switches to tcB for its dependencies; the root sees tcA.  variant (0..5) chooses the tool name and
+    the order in which the root visits tw / tm / ts (the visiting order decides which package calculation is served
+    from Bob's in-memory cache)."""
+    m = copy.deepcopy(model)
+    tool = "t0" if variant % 2 == 0 else "t1"
+    def body(**kw):
+        b = {"root": False, "inherit": [], "depends": [], "environment": {}, "privateEnvironment": {},
+             "metaEnvironment": {}, "provideVars": {}, "provideDeps": [], "provideTools": {}, "checkoutDeterministic": False,
+             "import": False, "shared": False, "relocatable": None, "tooldirs": False, "fp": False,
+             "steps": {"checkout": _empty_step(), "build": _empty_step(), "package": _empty_step()}}
+        b.update(kw)
+        return b
+    def dep(name, use, forward=False):
+        return {"name": name, "use": use, "forward": forward, "env": {}, "if": None, "checkoutDep": False, "tools": None}
+    providers = []
+    for i, nm in enumerate(("tcA", "tcB")):
+        b = body(tooldirs=True, provideTools={tool: {"path": ".", "libs": []}})
+        b["steps"]["package"]["script"] = base_fid + i
+        providers.append({"name": nm, "body": b, "multi": None})
+    w = body()
+    w["steps"]["build"]["script"] = base_fid + 2
+    w["steps"]["build"]["tools"] = [tool]
+    w["steps"]["package"]["script"] = base_fid + 3
+    mid = body(depends=[dep("tw", ["result"])])
+    mid["steps"]["build"]["script"] = base_fid + 4
+    mid["steps"]["package"]["script"] = base_fid + 5
+    sub = body(depends=[dep("tcB", ["tools"], True), dep("tm", ["result"])])
+    sub["steps"]["build"]["script"] = base_fid + 6
+    sub["steps"]["package"]["script"] = base_fid + 7
+    # r_i may only depend on r_j with j > i
+    m["recipes"] += [{"name": "ts", "body": sub, "multi": None}, {"name": "tm", "body": mid, "multi": None},
+                     {"name": "tw", "body": w, "multi": None}] + providers
+    order = [["tw", "tm", "ts"], ["tm", "ts"], ["tw", "ts", "tm"]][(variant // 2) % 3]
+    root = m["recipes"][0]["body"]
+    have = {d["name"] for d in root["depends"]}
+    root["depends"] = [d for d in root["depends"]] + [dep("tcA", ["tools"], True)] + [dep(n, ["result"]) for n in order if n not in have]
+    m["nextfid"] = max(m.get("nextfid", 0), base_fid + 10)
+    return m
